@@ -920,3 +920,119 @@ Qed.
 (** conversely, a publication of the running thread outside a callback is unsafe in this model *)
 Lemma pub_self_unsafe : safe_run (flat_map expand [PPubSelf; PSwitchPlainThread]) (mkPst false false) = false.
 Proof. reflexivity. Qed.
+
+(* ------------------------------------------------------------------ *)
+(** * floating-point control state is NOT preserved *)
+
+Lemma xrun_next : forall lbl cb c x s, run lbl cb c (xcore x) = Next s -> xrun lbl cb c x = XNext (mkX s (xfp x)).
+Proof. intros lbl cb c x s H; unfold xrun; rewrite H; reflexivity. Qed.
+
+Lemma xrun_jump : forall lbl cb c x v s, run lbl cb c (xcore x) = Jump v s -> xrun lbl cb c x = XJump v (mkX s (xfp x)).
+Proof. intros lbl cb c x v s H; unfold xrun; rewrite H; reflexivity. Qed.
+
+(** Same setting as [ctx_check_sound], on extended states.  [fp0]: the control state thread A runs
+    with; [fpB]: the control state of the worker that resumes A (left there by whichever thread ran
+    last on it - another thread is not a callee of A and owes A nothing).  The integer conclusions
+    hold as before; the floating-point control state A finds after resumption is [fpB]. *)
+Theorem fp_control_follows_worker : forall lblf cb hi, abi_callee hi cb ->
+  forall A B pa pb depth r0,
+    ctx_check A = true -> ctx_check B = true ->
+    site_parts (code A) = Some pa -> site_parts (code B) = Some pb ->
+    site_summary A = Some (depth, r0) ->
+    forall s0 fp0,
+      rg s0 RSP <= hi -> ~ (rg s0 RSP - depth <= rg s0 r0 < hi) ->
+      exists x1,
+        xrun (lblf (sid A)) cb (save_code pa) (mkX s0 fp0) = XNext x1 /\
+        rg (xcore x1) RSP = rg s0 RSP - depth /\ mem (xcore x1) (rg s0 r0) = rg (xcore x1) RSP /\
+        xfp x1 = fp0 /\
+        forall sB fpB,
+          (forall a, rg (xcore x1) RSP <= a < hi -> mem sB a = mem (xcore x1) a) ->
+          mem sB (rg sB (p_load pb)) = rg (xcore x1) RSP ->
+          exists x2 l rs x3,
+            p_cont pa = Some (l, rs) /\
+            xrun (lblf (sid B)) cb (tail_code pb) (mkX sB fpB) = XJump (lblf (sid A) l) x2 /\
+            xrun (lblf (sid A)) cb rs x2 = XNext x3 /\
+            rg (xcore x3) RSP = rg s0 RSP /\
+            (forall r, In r callee_saved -> rg (xcore x3) r = rg s0 r) /\
+            (forall a, rg s0 RSP - 128 <= a < hi -> mem (xcore x3) a = mem s0 a) /\
+            xfp x3 = fpB.
+Proof.
+  intros lblf cb hi Habi A B pa pb depth r0 HA HB HpA HpB Hsum s0 fp0 Hhi Hcell.
+  destruct (ctx_check_sound lblf cb hi Habi A B pa pb depth r0 HA HB HpA HpB Hsum s0 Hhi Hcell)
+    as [s1 [Hr1 [Hsp1 [Hm1 Hrest]]]].
+  exists (mkX s1 fp0). split; [apply (xrun_next _ _ _ (mkX s0 fp0)); exact Hr1|].
+  split; [exact Hsp1|]. split; [exact Hm1|]. split; [reflexivity|].
+  intros sB fpB HmB Hload. cbn [xcore] in HmB, Hload.
+  destruct (Hrest sB HmB Hload) as [s2 [l [rs [Hct [Hr2 [s3 [Hr3 [Hsp3 [Hcs [_ Hmem]]]]]]]]]].
+  exists (mkX s2 fpB), l, rs, (mkX s3 fpB).
+  split; [exact Hct|]. split; [apply (xrun_jump _ _ _ (mkX sB fpB)); exact Hr2|].
+  split; [apply (xrun_next _ _ _ (mkX s2 fpB)); exact Hr3|].
+  cbn [xcore xfp]. repeat split; assumption.
+Qed.
+
+(** The full property for the floating-point control state ("exactly as it left them", whatever
+    another thread does on the worker in between) is FALSE of the faithful model.  Witness:
+    myth_swap_context of the pinned tree, thread A with round-upward, the worker left in
+    round-downward by the thread that ran in between: every hypothesis of the soundness theorem
+    holds, rsp and the integer callee-saved registers are restored, the control state is not. *)
+Theorem fp_control_refuted :
+  exists (A : site) (pa : parts) (hi : Z) (x0 x1 xB x2 x3 : xstate) (l : Z) (rs : list instr),
+    ctx_check A = true /\ site_parts (code A) = Some pa /\ p_cont pa = Some (l, rs) /\
+    abi_callee hi d_cb /\
+    xrun (d_lbl (sid A)) d_cb (save_code pa) x0 = XNext x1 /\
+    (forall a, rg (xcore x1) RSP <= a < hi -> mem (xcore xB) a = mem (xcore x1) a) /\
+    mem (xcore xB) (rg (xcore xB) (p_load pa)) = rg (xcore x1) RSP /\
+    xrun (d_lbl (sid A)) d_cb (tail_code pa) xB = XJump (d_lbl (sid A) l) x2 /\
+    xrun (d_lbl (sid A)) d_cb rs x2 = XNext x3 /\
+    rg (xcore x3) RSP = rg (xcore x0) RSP /\
+    (forall r, In r callee_saved -> rg (xcore x3) r = rg (xcore x0) r) /\
+    xfp x0 = FP_UPWARD /\ xfp x3 = FP_DOWNWARD /\ fp_eqb (xfp x3) (xfp x0) = false.
+Proof.
+  pose (A := fp_witness_site). pose (hi := d_rsp0 + 4096).
+  assert (HA : ctx_check A = true) by (vm_compute; reflexivity).
+  assert (Hp : exists pa, site_parts (code A) = Some pa /\ p_load pa = RDX)
+    by (eexists; split; vm_compute; reflexivity).
+  destruct Hp as [pa [HpA Hload]].
+  assert (Hsum : site_summary A = Some (192, RAX)) by (vm_compute; reflexivity).
+  assert (Hhi : rg d_state0 RSP <= hi) by (vm_compute; discriminate).
+  assert (Hcell : ~ (rg d_state0 RSP - 192 <= rg d_state0 RAX < hi))
+    by (vm_compute; intros [H1 _]; apply H1; reflexivity).
+  destruct (fp_control_follows_worker d_lbl d_cb hi (d_cb_abi hi) A A pa pa 192 RAX HA HA HpA HpA Hsum
+              d_state0 FP_UPWARD Hhi Hcell) as [x1 [Hr1 [Hsp1 [Hm1 [Hfp1 Hrest]]]]].
+  pose (sB := fp_witness_env RDX (rg d_state0 RAX) (xcore x1)).
+  assert (HmB : forall a, rg (xcore x1) RSP <= a < hi -> mem sB a = mem (xcore x1) a) by (intros; reflexivity).
+  assert (HlB : mem sB (rg sB (p_load pa)) = rg (xcore x1) RSP).
+  { rewrite Hload. unfold sB, fp_witness_env. cbn [rg mem]. rewrite reg_eqb_refl. exact Hm1. }
+  destruct (Hrest sB FP_DOWNWARD HmB HlB) as [x2 [l [rs [x3 [Hct [Hr2 [Hr3 [Hsp3 [Hcs [_ Hfp3]]]]]]]]]].
+  exists A, pa, hi, (mkX d_state0 FP_UPWARD), x1, (mkX sB FP_DOWNWARD), x2, x3, l, rs.
+  split; [exact HA|]. split; [exact HpA|]. split; [exact Hct|]. split; [apply d_cb_abi|].
+  split; [exact Hr1|]. split; [exact HmB|]. split; [exact HlB|]. split; [exact Hr2|].
+  split; [exact Hr3|]. split; [exact Hsp3|]. split; [exact Hcs|].
+  split; [reflexivity|]. split; [exact Hfp3|]. rewrite Hfp3. reflexivity.
+Qed.
+
+(** what does hold: if the worker that resumes the thread still has the control state the thread
+    was suspended with (no thread changes the control state, or every thread that does restores it
+    before it switches), the thread finds it unchanged *)
+Corollary fp_control_partial : forall lblf cb hi, abi_callee hi cb ->
+  forall A B pa pb depth r0,
+    ctx_check A = true -> ctx_check B = true ->
+    site_parts (code A) = Some pa -> site_parts (code B) = Some pb ->
+    site_summary A = Some (depth, r0) ->
+    forall s0 fp0 x1 sB x2 l rs x3,
+      rg s0 RSP <= hi -> ~ (rg s0 RSP - depth <= rg s0 r0 < hi) ->
+      xrun (lblf (sid A)) cb (save_code pa) (mkX s0 fp0) = XNext x1 ->
+      (forall a, rg (xcore x1) RSP <= a < hi -> mem sB a = mem (xcore x1) a) ->
+      mem sB (rg sB (p_load pb)) = rg (xcore x1) RSP ->
+      xrun (lblf (sid B)) cb (tail_code pb) (mkX sB fp0) = XJump (lblf (sid A) l) x2 ->   (* guard: the worker's control state is fp0 *)
+      xrun (lblf (sid A)) cb rs x2 = XNext x3 ->
+      xfp x3 = fp0.
+Proof.
+  intros lblf cb hi Habi A B pa pb depth r0 HA HB HpA HpB Hsum s0 fp0 x1 sB x2 l rs x3 Hhi Hcell Hr1 HmB Hl Hr2 Hr3.
+  unfold xrun in Hr2. cbn [xcore xfp] in Hr2.
+  destruct (run (lblf (sid B)) cb (tail_code pb) sB) as [s|v s|]; try discriminate.
+  inversion Hr2; subst x2; clear Hr2.
+  unfold xrun in Hr3. cbn [xcore xfp] in Hr3.
+  destruct (run (lblf (sid A)) cb rs s) as [s'|v' s'|]; try discriminate.
+  inversion Hr3; subst x3; reflexivity.
+Qed.
